@@ -44,6 +44,19 @@ CHECKS = {
    text="Constant-in-kernel and c*div(u) identities are decided on the full face basis of every grid instance; the steady-state property is run for every element of a basis of the discretely divergence-free velocity fields (unit nodal/edge stream functions, 1-D q/A) with every dt of the alphabet, scalar and per-cell alpha, upwind and central advection, Dirichlet and mixed no-flux boundaries; source terms with all-distinct beta, gamma. Exhaustive within the bounds.",
    note="Solenoidal fields are built with the mid-point face areas implied by the library's divergenceTerm and the construction is asserted (divergenceTerm(u)==0) case by case; solver tolerance 64*eps*cond(M)*|c| - ill-conditioned dt values are reported as preconditions_failed.",
    ref="DESIGN.md 4/C06"),
+
+ "C09": dict(
+   engine="C-histbfs",
+   technique="explicit-state breadth-first search over operation histories on the real objects (two variable slots, ~55-operation menu), states merged by a canonical key, invariants evaluated once per state on objects rebuilt from scratch; differential oracle against a freshly constructed variable",
+   text="All histories over the edit/solve menu (BC utility methods, coefficient assignment/slice/index, periodic toggle, value assignment/index/in-place add, update_value, copy, arithmetic, sharing a BC object, fresh construction in both styles, apply_BCs, solvePDE, solveExplicitPDE into the same or the other slot) are explored breadth-first to the stated depth on each grid; in every reachable state solvePDE / solveExplicitPDE / apply_BCs on each live variable must equal the same call on a freshly constructed variable with the same visible state, no supported operation may raise, and variables that do not deliberately share a BC object must be independent. States, transitions, depth completed and whether the frontier closed are reported.",
+   note="State merging ignores interior values (no library code branches on them; fields are generic so staleness is visible); successor generation uses deepcopy but every state's invariants are evaluated on a world replayed from scratch; bound = depth and the finite edit alphabet; one recorded finding (shared BC object: dirty bits cleared by another variable) is matched by a history predicate and must satisfy its residual oracle.",
+   ref="DESIGN.md 4/C09"),
+ "C11": dict(
+   engine="A-opcheck",
+   technique="bounded exhaustive enumeration per grid instance: every face x every {1,2,4}-assignment to its two cells; every (cell, face) perturbation pair for locality; every line field over {0,1,2,4} for the 1-D/2-D/3-D agreement; velocity sign per face in {+,-,0}",
+   text="On every grid instance each averaging function is compared face by face with loop-based width-weighted means; bounds, constants, harmonic<=geometric<=arithmetic, exactness of linearMean on linear fields, the donor/boundary/zero rules of upwindMean with one face at a time in {+1,-1,0}, locality over all (cell, face) pairs and agreement of the 1-D, 2-D and 3-D variants on all lifted line fields over {0,1,2,4} (zeros included). Exhaustive within the bounds.",
+   note="Reference weights taken from the library docstrings; zero handling follows the 1-D convention (zero in either adjacent cell gives 0).",
+   ref="DESIGN.md 4/C11"),
 }
 NOT_YET = {}
 
@@ -75,6 +88,7 @@ def main():
                   "source_commits": [], "add_only": True},
         "engines": [
             {"name": "A-opcheck", "path": "fvmc/opkit.py", "serves_properties": ["C01", "C05", "C06", "C11", "C17"], "kind_free_text": "basis-exhaustive operator algebra on every bounded grid instance"},
+            {"name": "C-histbfs", "path": "fvmc/histbfs.py", "serves_properties": ["C09", "C14", "C15"], "kind_free_text": "explicit-state BFS over public-API operation histories on the real objects, canonical-key merging, per-state invariants, from-scratch replay"},
             {"name": "B-cfgsolve", "path": "fvmc/checks", "serves_properties": ["C01", "C02", "C03", "C04", "C06", "C07", "C08", "C12", "C17"], "kind_free_text": "configuration lattice (class x shape x spacing x BC kind per side x term subset x dt ...) enumerated completely or to a stated deviation bound, each configuration run from scratch on the real solver"},
             {"name": "D-tables", "path": "fvmc/checks", "serves_properties": ["C10", "C13", "C16"], "kind_free_text": "complete finite tables against closed-form references"},
             {"name": "harness", "path": "fvmc/harness.py", "serves_properties": props, "kind_free_text": "deterministic case enumeration, parallel execution, known-findings matching, replay + evidence"},
